@@ -268,7 +268,9 @@ def confirm_text(chk, role, name, sig, what):
 
 def text_shapes(tier):
     out = []
-    names = list(KEYWORDS) + ['a-b', 'aB', 'a1B', 'ab-Cd', 'x-1', 'r-self', 'macro-rules', 'union', 'a-b-c', 'abC-d', 'aBC', 'z9', 'r-type', 'r-1', 'r-self', 's-elf']
+    names = list(KEYWORDS) + ['a-b', 'aB', 'a1B', 'ab-Cd', 'x-1', 'r-self', 'macro-rules', 'union', 'a-b-c', 'abC-d', 'aBC', 'z9', 'r-type', 'r-1', 'r-self', 's-elf',
+                               # names that look like the compiler's own synthetic names once hyphens / case changes become underscores
+                               'ext-group-id', 'extGroupId', 'ext-group-1', 'anonymous-x', 'inner-type']
     for role in ('snake', 'const', 'enum', 'alt', 'title', 'module', 'namednumber'):
         for nm in names:
             n = nm
